@@ -257,6 +257,7 @@ static void check_handed(void)
   }
   handed_n = w;
 }
+static config_t *dump_owner = NULL;    /* the configuration whose tree is being dumped (NULL: cfg) */
 static void dump_node(const config_setting_t *s, const config_setting_t *parent, int *path, int depth)
 {
   fputs("T ", out);
@@ -287,7 +288,7 @@ static void dump_node(const config_setting_t *s, const config_setting_t *parent,
 
   /* pointer-level facts the functional model cannot express */
   if(s->parent != parent) links_ok = 0;
-  if(s->config != &cfg) links_ok = 0;
+  if(s->config != (dump_owner ? dump_owner : &cfg)) links_ok = 0;
   if(config_setting_is_root(s) != (parent == NULL)) queries_ok = 0;
   if(parent)
   {
@@ -912,6 +913,50 @@ static int run_line(char *line)
     if(count_fds() != fds || count_open_tracked() != 0) ev_add("L FDLEAK");
     if(cr != 0) ev_add("L STREAMBAD");
     r_int(r);
+    return 0;
+  }
+  if(n == 1 && IS("rtrip"))
+  {
+    /* C01: write the configuration, read the text back into a second configuration carrying the same output
+       settings, dump that, write it again */
+    char *t1 = NULL, *t2 = NULL; size_t l1 = 0, l2 = 0;
+    FILE *f = open_memstream(&t1, &l1);
+    config_write(&cfg, f);
+    fclose(f);
+    config_t c2;
+    config_init(&c2);
+    config_set_options(&c2, config_get_options(&cfg));
+    config_set_tab_width(&c2, config_get_tab_width(&cfg));
+    config_set_float_precision(&c2, config_get_float_precision(&cfg));
+    config_set_default_format(&c2, config_get_default_format(&cfg));
+    int r = (memchr(t1, 0, l1) == NULL) ? config_read_string(&c2, t1) : -1;
+    fprintf(out, "R rt %d\n", r);
+    fputs("W h", out);
+    for(size_t i = 0; i < l1; i++) fprintf(out, "%02x", (unsigned char)t1[i]);
+    fputc('\n', out);
+    {
+      static int path2[4096];
+      int lk = links_ok, qk = queries_ok;
+      dump_owner = &c2;
+      links_ok = queries_ok = 1;
+      dump_node(c2.root, NULL, path2, 0);
+      if(!links_ok || !queries_ok) fputs("S links=BAD (second configuration)\n", out);
+      dump_owner = NULL;
+      links_ok = lk; queries_ok = qk;
+    }
+    fprintf(out, "E %d ", (int)c2.error_type);
+    put_hs(c2.error_text);
+    fputc(' ', out);
+    put_hs(c2.error_file);
+    fprintf(out, " %d\n", c2.error_line);
+    f = open_memstream(&t2, &l2);
+    config_write(&c2, f);
+    fclose(f);
+    fputs("W h", out);
+    for(size_t i = 0; i < l2; i++) fprintf(out, "%02x", (unsigned char)t2[i]);
+    fputc('\n', out);
+    config_destroy(&c2);
+    free(t1); free(t2);
     return 0;
   }
   if(n == 1 && IS("write"))
